@@ -353,20 +353,36 @@ fn drive(cfg: &Config, slot: usize, progs: &[(String, Vec<Req>, Vec<u8>)], memcr
         std::thread::sleep(Duration::from_millis(100));
     }
     crate::watchdog::beat();
-    // ---- real time: ttl 2 hits at once, misses after 4.5 s ----
+    // ---- real time: ttl 4 hits at once and after 2.3 s, misses after 5.6 s (a server clock that
+    // runs fast or slow in some configuration shows here) ----
     {
         let mut c = Client::connect(srv.addr)?;
-        c.send(&Req::store(op::SET, b"T", b"tick", 0, 2, 0).opaque(1).bytes());
+        let t_set = Instant::now();
+        c.send(&Req::store(op::SET, b"T", b"tick", 0, 4, 0).opaque(1).bytes());
         c.read_frames(1, patience);
         c.send(&Req::get(op::GET, b"T").opaque(2).bytes());
         let hit = wire::split_responses(&c.read_frames(1, patience)).0;
-        std::thread::sleep(Duration::from_millis(4500));
+        std::thread::sleep(Duration::from_millis(2300));
         c.send(&Req::get(op::GET, b"T").opaque(3).bytes());
+        let mid = wire::split_responses(&c.read_frames(1, patience)).0;
+        let mid_at = t_set.elapsed();
+        crate::watchdog::beat();
+        std::thread::sleep(Duration::from_millis(3300));
+        c.send(&Req::get(op::GET, b"T").opaque(4).bytes());
         let miss = wire::split_responses(&c.read_frames(1, patience)).0;
-        if hit.first().map(|r| r.status) != Some(st::OK) || miss.first().map(|r| r.status) != Some(st::NOT_FOUND) {
+        // a stretched sleep (overloaded machine) makes the middle probe inconclusive, not wrong
+        let mid_ok = mid_at > Duration::from_millis(3400) || mid.first().map(|r| r.status) == Some(st::OK);
+        if hit.first().map(|r| r.status) != Some(st::OK) || !mid_ok || miss.first().map(|r| r.status) != Some(st::NOT_FOUND) {
             problems.push((
                 "real-time-ttl".into(),
-                format!("set ttl=2: get at once {:?}, get after 4.5 s {:?} (expected hit then miss)", hit.first().map(|r| r.status), miss.first().map(|r| r.status)),
+                format!(
+                    "set ttl=4: get at once {:?}, get after {:.1} s {:?}, get after {:.1} s {:?} (expected hit, hit, miss)",
+                    hit.first().map(|r| r.status),
+                    mid_at.as_secs_f64(),
+                    mid.first().map(|r| r.status),
+                    t_set.elapsed().as_secs_f64(),
+                    miss.first().map(|r| r.status)
+                ),
             ));
         }
     }
@@ -522,7 +538,7 @@ pub fn check(tier: Tier) -> CheckOutcome {
             "programs_run": programs_run,
             "samples": samples,
             "exhaustive": tier == Tier::Thorough,
-            "rule": "grid runtime-type {current-thread, multi-thread} x threads {1,2,8} x eviction {none, random 64MiB} x port {11211, 24680} x max-item-size {1KiB, 1MiB} x connection-limit {1,3} (quick: a covering subset of 8; thorough: all 96); each configuration is a real server process started through cli::parser::parse + runtime_builder::create_memcrs_server; driven with the spanning-tree histories of the C01/C07 explorations as one pipelined connection; transcripts compared byte-for-byte across configurations and (CAS-stripped) with the in-process run; a 1500-item population read back and flushed; limit probes; one real-time TTL probe",
+            "rule": "grid runtime-type {current-thread, multi-thread} x threads {1,2,8} x eviction {none, random 64MiB} x port {11211, 24680} x max-item-size {1KiB, 1MiB} x connection-limit {1,3} (quick: a covering subset of 8; thorough: all 96); each configuration is a real server process started through cli::parser::parse + runtime_builder::create_memcrs_server; driven with the spanning-tree histories of the C01/C07 explorations as one pipelined connection; transcripts compared byte-for-byte across configurations and (CAS-stripped) with the in-process run; a 1500-item population read back and flushed; limit probes; a real-time TTL probe (hit before, miss after the TTL in real seconds)",
         }),
         assumptions: vec![
             "timing enters only as patience: positive expectations wait up to 5 s, 'not served' waits 300 ms".into(),
